@@ -13,7 +13,7 @@ Template directives (all start with //@ at the beginning of a line):
       //@loop <n> [iter=<name>]
           <invariant / decreases lines inserted before the loop body of the
            n-th loop keyword (for/while/loop) of the real function body>
-      //@proof before|after /regex/
+      //@proof before|after|blockend /regex/
           <ghost statements inserted at the anchored position>
       //@sub /regex/ => replacement            logged local rewrite
   //@end
@@ -315,6 +315,70 @@ class Rewriter:
             pos = m.start() + len(repl)
             self.count("R7 .expect(..) -> .vx_expect() (abort on None/Err)")
         return text
+
+    def option_closures(self, text):
+        """R22 (opt-in per function, `optclosures`): Option combinators taking a closure are desugared to `match`, the
+        closure body kept verbatim:  RECV.map(|x| BODY) -> (match RECV { Some(x) => Some(BODY), None => None }),
+        RECV.unwrap_or_else(|| BODY) -> (match RECV { Some(vx_v) => vx_v, None => BODY }).  Verus gives closures
+        without an `ensures` clause no specification, so the combinator form would lose the body."""
+        guard = 0
+        while True:
+            guard += 1
+            if guard > 200:
+                raise ExtractError("R22: too many rewrites")
+            toks = [t for t in tokenize(text) if t.kind not in ("ws", "comment")]
+            found = None
+            for k, t in enumerate(toks):
+                if (t.kind == "punct" and t.text == "." and k + 3 < len(toks) and toks[k + 1].kind == "ident"
+                        and toks[k + 1].text in ("map", "unwrap_or_else") and toks[k + 2].text == "("
+                        and toks[k + 3].text == "|"):
+                    found = k
+                    break
+            if found is None:
+                return text
+            k = found
+            which = toks[k + 1].text
+            close = match_close(toks, k + 2)
+            # closure parameters
+            j = k + 4
+            params = []
+            while toks[j].text != "|":
+                params.append(toks[j])
+                j += 1
+            body_src = text[toks[j].end:toks[close].start].strip()
+            if which == "map":
+                if len(params) != 1 or params[0].kind != "ident":
+                    raise ExtractError("R22: unsupported closure parameters in .map(..)")
+                pname = params[0].text
+                if pname == "_":
+                    pname = "vx_unused"
+            elif params:
+                raise ExtractError("R22: unwrap_or_else closure with parameters")
+            # receiver: walk back to the start of the postfix expression
+            depth = 0
+            r = k - 1
+            while r >= 0:
+                t = toks[r]
+                if t.kind == "punct" and t.text in CLOSE:
+                    depth += 1
+                elif t.kind == "punct" and t.text in OPEN:
+                    if depth == 0:
+                        break
+                    depth -= 1
+                elif depth == 0 and ((t.kind == "punct" and t.text in "=;,|&*!<>+-/") or
+                                     (t.kind == "ident" and t.text in ("return", "in", "if", "match", "let", "else"))):
+                    break
+                r -= 1
+            rs = toks[r + 1].start
+            recv = text[rs:toks[k].start].strip()
+            if which == "map":
+                repl = "(match %s { Some(%s) => Some(%s), None => None })" % (recv, pname, body_src)
+            else:
+                repl = "(match %s { Some(vx_v) => vx_v, None => %s })" % (recv, body_src)
+            whole = text[rs:toks[close].end]
+            repl = repl + "\n" * (whole.count("\n") - repl.count("\n"))
+            text = text[:rs] + repl + text[toks[close].end:]
+            self.count("R22 Option::%s(closure) -> match (closure body kept)" % which)
 
     def apply_maps(self, text, maps, what):
         for rx, repl in maps:
@@ -665,7 +729,7 @@ class Unit:
                 loops[num] = {"iter": lo.get("iter"), "lines": []}
                 cur = ("loop", num)
             elif s.startswith("//@proof"):
-                pm = re.match(r"//@proof\s+(before|after|start)\s*(?:/(.*)/)?\s*(?:#(\d+))?\s*$", s)
+                pm = re.match(r"//@proof\s+(before|after|blockend|start)\s*(?:/(.*)/)?\s*(?:#(\d+))?\s*$", s)
                 if not pm:
                     raise ExtractError("bad //@proof directive: " + s)
                 proofs.append({"where": pm.group(1), "re": pm.group(2), "lines": [], "org": lorg,
@@ -726,6 +790,8 @@ class Unit:
         body = rw.attrs(body)
         body = rw.drop_use_lines(body)
         body = rw.closure_wildcards(body)
+        if opts.get("optclosures"):
+            body = rw.option_closures(body)
         body = rw.discarded_option_map(body)
         body = rw.debug_guards(body)
         body = rw.local_macro_defs(body)
@@ -837,6 +903,23 @@ class Unit:
                 mm = ms[0]
             if pr["where"] == "before":
                 p = body.rfind("\n", 0, mm.start()) + 1
+                inserts.append((p, plines))
+            elif pr["where"] == "blockend":
+                # just before the `}` that closes the block enclosing the match (e.g. the end of a loop body)
+                toks = tokenize(body[mm.start():])
+                depth = 0
+                p = None
+                for t in toks:
+                    if t.kind == "punct":
+                        if t.text in OPEN:
+                            depth += 1
+                        elif t.text in CLOSE:
+                            depth -= 1
+                            if depth < 0:
+                                p = mm.start() + t.start
+                                break
+                if p is None:
+                    raise ExtractError("//@proof blockend /%s/: no enclosing block end" % pr["re"])
                 inserts.append((p, plines))
             else:
                 toks = tokenize(body[mm.start():])
